@@ -19,7 +19,7 @@ Failure of any step is a broken tie: res.violation("translated source no longer 
 added to res.corr_obligations and the counts go to res.cov["translation_tie"].
 
 `functions`: None = every group of Equiv.v; otherwise an iterable of group names ("can",
-"descriptor", "wire", "physical", "apidecide", "netlink", "scan", "dbcid", "dbcvalidate", "lookup", "lintnames") and/or translated function names
+"descriptor", "wire", "physical", "apidecide", "netlink", "scan", "dbcid", "dbcvalidate", "lookup", "lintnames", "frametext") and/or translated function names
 ("Data_Bit", "Signal_MaxUnsigned", ...):
 the groups containing them, plus the groups those require, are checked (a group is the unit because
 the generated records contain exactly the struct fields the translated functions use).
@@ -138,8 +138,8 @@ def _definition_of(translated_src, name):
 
 
 TRUSTED = ("translation tie: the translator harness/translate/main.go (unverified Go program; go/parser, go/types, "
-           "x/tools/go/packages) and Translate/GoSem.v's / GoSemFloat.v's reading of Go's integer, slice and "
-           "floating-point semantics (see the headers of those files)")
+           "x/tools/go/packages) and Translate/GoSem.v's / GoSemFloat.v's / GoSemText.v's reading of Go's integer, slice, "
+           "floating-point and string / text-library semantics (see the headers of those files)")
 
 
 def _hook_finish(res, line):
